@@ -14,7 +14,7 @@ TECH = {
  "C03": ("exhaustive enumeration of time-grid settings + property-based differential testing against an independent reference simulator (one-step replay and free run)", "grid predicate over an enumerated product of (start, span, dt) plus drawn triples; every link of every generated/library model replayed by the documented conversion rules; free run of a reference simulator written from the documentation"),
  "C04": ("property-based testing: junction-biased generated models, split law recomputed from recorded inflows, initial-flush reference", "exploration of junction sub-graphs; split law and initial flush recomputed independently"),
  "C05": ("property-based testing: duration/step ratio classes, black-box occupancy and release-timing relations + cohort-exact bin replay", "exploration over D/dt ratio classes incl. integer-up-to-rounding; black-box inequalities/equalities on arrivals, occupancy and timed outflow, and per-bin replay"),
- "C06": ("property-based differential testing: every parameter at every index recomputed by the precedence chain (own interpolation, own expression evaluator)", "exploration of dependency graphs, data patterns, factors, limits, scenarios and derivative parameters; independent recomputation of every value"),
+ "C06": ("property-based differential testing: every parameter at every index recomputed by the precedence chain (own interpolation, own expression evaluator); model-based histories of TimeSeries edits against a dict model", "exploration of dependency graphs, data patterns, factors, limits, scenarios and derivative parameters; independent recomputation of every value"),
  "C07": ("property-based testing: truth-first initial conditions with perturbation classes, acceptance/refusal oracle", "exploration of inclusion structures and data classes; accepted states must reproduce the databook, refusals must be BadInitialization"),
  "C08": ("model-based/stateful property testing: operation sequences over a project pool, digest and canonical-form invariants, fresh-process differential", "exploration of operation histories (runs, copies, pickles, save/load, interleaved projects) with bitwise digests and structural equality of inputs; sampled fresh processes with different hash seeds"),
  "C09": ("metamorphic property-based testing: intervention vs baseline pairs compared before the intervention year", "exploration of (model, intervention kind, Y) with a metamorphic equality oracle"),
